@@ -161,8 +161,10 @@ def recovery(rep, prog, P):
                 cells[off] = (n, None, 'stale')
                 rep.ok(P + '.2', sample={'field': name, 'after_reset': 'STALE (must be dead: step 3)'})
             else:
-                rep.fail(P + '.2', 'reset|%s' % name, 'after a topology Reset field %s holds %s: neither its fresh value nor untouched'
-                         % (name, [short(b) for b in bs][:4]), function='parseFrame', file='lltdResponder/lltdBlock.c')
+                # neither zero nor untouched (a free-running statistics counter bumped by the Reset itself): whatever it holds
+                # derives from pre-Reset state, so it is STALE like an untouched field - step 3 shows that nothing reads it
+                cells[off] = (n, None, 'stale')
+                rep.ok(P + '.2', sample={'field': name, 'after_reset': 'derived from pre-Reset state (must be dead: step 3)'})
         if post is None:
             post = cells
         else:
